@@ -557,10 +557,35 @@ func (g *gen) next() *op {
 			o.Q, o.Slash = g.randPath(3), r.Intn(4) == 0
 		}
 		// a destination at or below the source directory is the C19-2 territory: keep it rare
-		for try := 0; try < 4 && g.shadow.get(o.P) != nil && g.shadow.get(o.P).dir && hasPrefix(o.Q, o.P) && r.Intn(12) != 0; try++ {
-			o.Q, o.Slash = g.pick(dirs), r.Intn(2) == 0
-			if r.Intn(2) == 0 {
-				o.Q, o.Slash = freshIn(), false
+		// (about one move of a directory in 25), otherwise pick a destination outside the source
+		landsIn := func(q path, slash bool) path { // the directory the source would be linked into
+			dir, name := q, o.P[len(o.P)-1]
+			if !slash && len(q) > 0 {
+				dir, name = q[:len(q)-1], q[len(q)-1]
+			}
+			if t := g.shadow.get(dir.with(name)); t != nil && t.dir {
+				return dir.with(name)
+			}
+			return dir
+		}
+		if sn := g.shadow.get(o.P); sn != nil && sn.dir && (hasPrefix(o.Q, o.P) || hasPrefix(landsIn(o.Q, o.Slash), o.P)) && r.Intn(25) != 0 {
+			var outside []path
+			for _, d := range dirs {
+				if !hasPrefix(d, o.P) {
+					outside = append(outside, d)
+				}
+			}
+			d := g.pick(outside) // the root is always outside
+			switch r.Intn(3) {
+			case 0:
+				o.Q, o.Slash = d, true
+			case 1:
+				o.Q, o.Slash = d.with(r.Intn(len(alphabet))), false
+			default:
+				o.Q, o.Slash = d.with(o.P[len(o.P)-1]), false
+			}
+			if hasPrefix(o.Q, o.P) || hasPrefix(landsIn(o.Q, o.Slash), o.P) { // e.g. the same name under the same parent
+				o.Q, o.Slash = d.with((o.P[len(o.P)-1]+1+r.Intn(len(alphabet)-1))%len(alphabet)), false
 			}
 		}
 		if len(o.Q) == 0 {
